@@ -571,6 +571,9 @@ func (w *Writer) WriteCompressed(refs []Reference, objects ...Object) error {
 	if err != nil {
 		return err
 	}
+	if len(objects) == 0 {
+		return nil // nothing to write (and no empty object stream)
+	}
 
 	// The reader accepts object streams with at most maxObjStmObjects
 	// members; larger batches are spread over several object streams.
